@@ -15,7 +15,7 @@ from ..instrument import TopoPerturb
 from ..common import setup_paths
 
 PROPERTY = "C04"
-RULE = ("exhaustive enumeration of all command sequences over 3 modes from a 25-symbol alphabet "
+RULE = ("exhaustive enumeration of all command sequences over 3 modes from a 28-symbol alphabet "
         "(1-mode gate x3, 2-mode gate on each ordered pair x6, homodyne x3, gate on b with a parameter "
         "measured on a!=b x6, MeasureFock on each non-empty subset x7) up to length 3 (quick) / 4 (thorough), "
         "plus random sequences of length 5-40 over <=8 modes; each executed through every routine, repeated "
@@ -41,6 +41,8 @@ def alphabet(nm=3):
         syms.append(("mx", (m,), None))
     for a, b in itertools.permutations(range(nm), 2):
         syms.append(("gp", (b,), a))  # gate on b with parameter measured on a
+    for a in range(nm):
+        syms.append(("gs", (a,), a))  # gate on a with a parameter measured on a itself
     for k in range(1, nm + 1):
         for sub in itertools.combinations(range(nm), k):
             syms.append(("mf", sub, None))
@@ -96,9 +98,19 @@ def build(ctx, symseq, nm):
             op = ops.MeasureHomodyne(0.1 * pos)
         elif kind == "gp":
             op = ops.Dgate(regs[dep].par * (1 + pos), 0.1 * pos)
+        elif kind == "gs":
+            op = ops.Dgate(regs[dep].par * (1 + pos), 0.1 * pos)
         elif kind == "mf":
             op = ops.MeasureFock()
+        elif kind == "del":
+            op = ops._Delete()
         cmds.append(pu.Command(op, [regs[m] for m in modes]))
+    # a deleted subsystem: Program.append flags the (shared) RegRef inactive when Del is appended, which changes the hash
+    # of an object that earlier commands and the measurement_deps sets of earlier operations already hold
+    for kind, modes, dep in symseq:
+        if kind == "del":
+            for m in modes:
+                regs[m].active = False
     return regs, cmds
 
 
@@ -307,6 +319,15 @@ def run_sequence(ctx, rep, symseq, nm, K, rng, case_id):
                 rep.observe("gbs.accepted")
             else:
                 rep.observe("gbs.rejected:" + why)
+        except Exception as e:
+            # none of these routines documents an exception for a well-formed command list (GBS.compile's CircuitError is
+            # handled above): a crash is reported at the repository function that was executing
+            import traceback
+
+            fr = [f for f in traceback.extract_tb(e.__traceback__) if "/strawberryfields/" in f.filename]
+            viol(fr[0].name if fr else "reordering", "exception:" + type(e).__name__, "%s raised %s: %s" % (
+                " <- ".join(f.name for f in reversed(fr[-3:])) if fr else "?", type(e).__name__, str(e)[:120]), {"pseed": pseed})
+            break
         finally:
             if pert:
                 pert.uninstall()
@@ -327,9 +348,12 @@ def random_symseq(rng, nm, length):
         if syms is not None:
             seq.append(syms[int(rng.integers(len(syms)))])
         else:
-            kind = ["g1", "g2", "mx", "gp", "mf"][int(rng.choice(5, p=[0.3, 0.35, 0.1, 0.15, 0.1]))]
+            kind = ["g1", "g2", "mx", "gp", "mf", "gs"][int(rng.choice(6, p=[0.3, 0.3, 0.1, 0.15, 0.1, 0.05]))]
             if kind in ("g1", "mx"):
                 seq.append((kind, (int(rng.integers(nm)),), None))
+            elif kind == "gs":
+                a = int(rng.integers(nm))
+                seq.append((kind, (a,), a))
             elif kind == "g2":
                 a, b = rng.choice(nm, 2, replace=False)
                 seq.append((kind, (int(a), int(b)), None))
@@ -415,12 +439,20 @@ def run_shard(shard, rep):
             # the full routine set runs on every sequence; K perturbations only on a 1/3 subsample at
             # length 4 to bound cost (the unperturbed call still runs on all)
             kk = K if (length < 4 or (idx // shard["parts"]) % 3 == 0) else 1
-            run_sequence(ctx, rep, [syms[i] for i in tup], 3, kk, rng, cid)
+            seq = [syms[i] for i in tup]
+            if cid % 3 == 2:
+                # every third sequence ends with the deletion of one subsystem (always legal as the last command)
+                seq = seq + [("del", ((cid // 3) % 3,), None)]
+                rep.observe("enumerated-with-trailing-Del")
+            run_sequence(ctx, rep, seq, 3, kk, rng, cid)
             cid += 1
     rep.observe("enumerated-sequences", cid)
     for _ in range(shard["nrandom"]):
         nm = int(rng.integers(2, 9))
         seq = random_symseq(rng, nm, int(rng.integers(5, 41)))
+        if rng.random() < 0.4:
+            for m in sorted(int(x) for x in rng.choice(nm, int(rng.integers(1, 3)), replace=False)):
+                seq.append(("del", (m,), None))
         run_sequence(ctx, rep, seq, nm, K, rng, cid)
         cid += 1
         rep.observe("random-sequences")
